@@ -357,9 +357,14 @@ def every_item_handled(F, fn, is_target, detail=None):
     for bi in tb:
         t = b.term(bi)
         n = callee_name(t) or ""
-        if bi in in_loop or not CONSUMERS.search(n) or len(t["args"]) < 2:
+        if bi in in_loop or not CONSUMERS.search(n) or not t["args"]:
             continue
-        ok, why = exhaustive_source(b, t["args"][1])
+        # `dest.extend(iter)` / `extend_from_slice(dest, src)`: the source is the second argument; `iter.collect()`,
+        # `from_iter(iter)`: the first
+        src_i = 1 if re.search(r"::extend$|::extend_from_slice$", n) else 0
+        if src_i >= len(t["args"]):
+            continue
+        ok, why = exhaustive_source(b, t["args"][src_i])
         if not ok and detail is not None:
             detail.append(why)
         res.append(("consumer@%s" % b.site(bi), ok))
